@@ -18,6 +18,8 @@ def run(tier, seed):
             @staticmethod
             def templates(tier, seed=0): return [t for t in types.templates(tier, seed) if t['name'].startswith('bin-') and not t['name'].startswith('bin-empty-')]
         fams += [('types-binops', _TypesBin, None)]
+        from families import crossfeature
+        fams += [('cross-feature', crossfeature, None)]          # one or two broad programs of every other family
     n = 0
     for name, mod, role in fams:
         ts = mod.templates(tier, seed) if name != 'arith' else mod.templates(tier)
